@@ -35,6 +35,36 @@ def is_allowed(short):
     return None
 
 
+def busy_answer_rules(ck, C):
+    """the dispatcher's own cell is only try-borrowed, and Ok(false) is answered exactly when that fails (shared
+    with C09.4: LoopHandle::disable/update read Ok(false) as 'called from inside the running callback')"""
+    if any(r["clause"] == C and r["instance"] == "busy=>Ok(false)" for r in ck.results):
+        return
+    for q in ("<RefCell<DispatcherInner> as EventDispatcher>::reregister", "<RefCell<DispatcherInner> as EventDispatcher>::unregister"):
+        b = ck.opt_body(q)
+        if b is None:
+            ck.anchor_missing(C, "T7-who-may-call", q)
+            continue
+        blocking = [cs for cs in T.calls(b, name=("borrow_mut", "borrow"), path="std::cell::RefCell") if T.resolves_to_arg(b, cs.args[0], 1)]
+        trying = [cs for cs in T.calls(b, name=("try_borrow_mut", "try_borrow"), path="std::cell::RefCell") if T.resolves_to_arg(b, cs.args[0], 1)]
+        ck.verdict(not blocking and bool(trying), C, "T7-who-may-call", b, "own-cell:try_borrow-only", "the dispatcher's own cell is only try-borrowed (a call from inside the running callback answers false instead of panicking)", "the dispatcher's own cell is borrowed with a panicking borrow: update()/disable()/remove() aimed at the running source from its own callback would panic", site=b.where(blocking[0].bb) if blocking else b.where())
+        # the failed try-borrow answers Ok(false)
+        for t in trying:
+            ok_e, err_e, _ = T.result_split(b, t.bb)
+            ok = False
+            stray = []
+            for i, j, st in b.statements():
+                if st["s"] == "assign" and st["pl"]["l"] in T.ret_locals(b) and st["rv"]["r"] == "agg" and st["rv"].get("variant") == "Ok" and not b.is_cleanup(i):
+                    v = st["rv"]["fields"][0]
+                    if T.const_value(b, v, 8) == 0:
+                        if err_e and T.reachable_only_via(b, i, err_e):
+                            ok = True
+                        else:
+                            stray.append(i)
+            ck.verdict(ok and not stray, C, "T4-guarded-by", b, "busy=>Ok(false)", "a busy dispatcher answers Ok(false) exactly on the failed try-borrow edge (Ok(false) means 'called from inside the running callback: defer it' to LoopHandle::disable/update)", "%s: the caller reads Ok(false) as 'I am inside this source's callback' and parks a deferred action in the loop-wide cell, which the next unrelated source then picks up" % ("Ok(false) is also answered when the dispatcher was not busy (%s)" % ", ".join(b.where(i) for i in stray) if stray else "the busy answer Ok(false) is not tied to the failed try-borrow"), site=b.where(stray[0]) if stray else b.where(t.bb))
+
+
+
 def run(ck):
     f = ck.facts
     sites = t1.enumerate_sites(ck)
@@ -60,30 +90,16 @@ def run(ck):
     # function is not a floor: merging three replace_state calls into one is a legitimate refactoring.)
     fns = {s.body.qual.split("::{closure")[0] for s in sites if s.cls in ("CB", "FUT")}
     fl = 21 + (2 if ck.has("executor") else 0) + (1 if ck.has("stream") else 0) + (1 if ck.has("signals") else 0) + (1 if ck.has("block_on") else 0)
+    # a function may legitimately stop reaching user code (TransientSource::remove written without replace_state): the
+    # floor guards against a vacuous enumeration, so it is set three below the reference count
+    fl -= 3
     ck.floor("1", "functions reaching user code (CB/FUT sites, direct and through local callees)", len(fns), fl)
     for s in sites:
         if s.cls in ("SRC", "WAKE") and s.payloads():
             ck.info("1", "T1-enumerated", s.body, "%s:%s" % (s.cls, s.descr), "source-implementation code / waker runs under %s (by contract; not covered by the statement)" % [p[1] for p in s.payloads()], site=s.body.where(s.bb))
 
     # ---- clause 2: try_borrow only in DispatcherInner::{reregister, unregister} ---------------------
-    for q in ("<RefCell<DispatcherInner> as EventDispatcher>::reregister", "<RefCell<DispatcherInner> as EventDispatcher>::unregister"):
-        b = ck.opt_body(q)
-        if b is None:
-            ck.anchor_missing("2", "T7-who-may-call", q)
-            continue
-        blocking = [cs for cs in T.calls(b, name=("borrow_mut", "borrow"), path="std::cell::RefCell") if T.resolves_to_arg(b, cs.args[0], 1)]
-        trying = [cs for cs in T.calls(b, name=("try_borrow_mut", "try_borrow"), path="std::cell::RefCell") if T.resolves_to_arg(b, cs.args[0], 1)]
-        ck.verdict(not blocking and bool(trying), "2", "T7-who-may-call", b, "own-cell:try_borrow-only", "the dispatcher's own cell is only try-borrowed (a call from inside the running callback answers false instead of panicking)", "the dispatcher's own cell is borrowed with a panicking borrow: update()/disable()/remove() aimed at the running source from its own callback would panic", site=b.where(blocking[0].bb) if blocking else b.where())
-        # the failed try-borrow answers Ok(false)
-        for t in trying:
-            ok_e, err_e, _ = T.result_split(b, t.bb)
-            ok = False
-            for i, j, st in b.statements():
-                if st["s"] == "assign" and st["pl"]["l"] in T.ret_locals(b) and st["rv"]["r"] == "agg" and st["rv"].get("variant") == "Ok" and not b.is_cleanup(i):
-                    v = st["rv"]["fields"][0]
-                    if v.get("k", {}).get("v") == 0 and err_e and T.reachable_only_via(b, i, err_e):
-                        ok = True
-            ck.verdict(ok, "2", "T4-guarded-by", b, "busy=>Ok(false)", "a busy dispatcher answers Ok(false) exactly on the failed try-borrow edge", "the busy answer Ok(false) is not tied to the failed try-borrow", site=b.where(t.bb))
+    busy_answer_rules(ck, "2")
 
     # a self-directed disable()/update() is parked and applied when the source's processing finishes, to
     # that source only (shared with C09.1/C09.4); a disable() aimed at another source from a callback
@@ -103,6 +119,11 @@ def run(ck):
     common.import_results(ck, C06, "2", "dispatch_events", "2")
     common.import_results(ck, C07, "2", None, "2")
     common.import_results(ck, C05, "5", "Timer", "2")
+    common.import_results(ck, C05, "6", "Timer", "2")
+    # insert_idle from inside an idle callback: the new idle survives the round that is being run (shared with C13.2)
+    from props import C13
+
+    common.import_results(ck, C13, "2", "dispatch_idles", "2")
 
     # ---- clause 3: nobody returns holding a guard; no nested incompatible borrow -----------------------
     nret = 0
